@@ -216,6 +216,43 @@ theorem handles_fit_int (sc : Scripts) (cmds : List Cmd) (hb : (runCmds sc World
   generalize (runCmds sc World.init cmds).unique = u at *
   wheel_omega
 
+/-! ### handles in explicit width (C `int`) -/
+
+/-- `tm += CALLOUT_CYCLE_SIZE * ++unique` evaluated in a C `int` (`trunc32` = what a two's complement machine
+    leaves; in C itself the overflow is undefined behaviour) -/
+def handleC (tm unique : Nat) : Int := Gen.C10.trunc32 (Gen.C10.handleExpr tm unique)
+
+/-- **full statement under the stated bound**: for every slot and every serial below `2^31 / N - 1` the `int`
+    computation is exactly the model's handle `tm + N * (unique + 1)` (positive, never 0, slot recoverable) -/
+theorem handleC_exact (tm u : Nat) (htm : tm < N) (hb : u + 1 < 2 ^ 31 / N) :
+    handleC tm u = ((tm + N * (u + 1) : Nat) : Int) := by
+  have h := tie_handleExpr tm u
+  unfold handleC Gen.C10.trunc32
+  have h0 : 0 ≤ Gen.C10.handleExpr tm u := by
+    unfold Gen.C10.handleExpr; wheel_omega
+  have h1 : Gen.C10.handleExpr tm u = ((tm + N * (u + 1) : Nat) : Int) := by omega
+  rw [h1]
+  wheel_omega
+
+/-- the statement without the bound, for all serials -/
+def C10_handles_Full : Prop := ∀ tm u : Nat, tm < N → handleC tm u = ((tm + N * (u + 1) : Nat) : Int)
+
+/-- **witness above the bound** (Lean-checked): the first serial whose handle leaves `int` comes out negative ... -/
+theorem handleC_overflow_witness : handleC 0 (2 ^ 31 / N - 1) < 0 := by decide
+
+/-- ... so the full statement is false; `handleC_exact` is the `_partial` version with the explicit bound
+    (2^26 - 1 call_outs for N = 32).  Not replayed on the driver: reaching it needs 2^26 call_outs or a hook that
+    sets `unique` (see notes/C10.md). -/
+theorem C10_handles_Full_false : ¬ C10_handles_Full := by
+  intro h
+  have h1 := h 0 (2 ^ 31 / N - 1) (by decide)
+  have h2 := handleC_overflow_witness
+  rw [h1] at h2
+  omega
+
+/-- and `2^32 / N` serials later a handle repeats -/
+theorem handleC_collision_witness : handleC 5 0 = handleC 5 (2 ^ 32 / N) := by decide
+
 /-- the efuns return `(int) time_left (...)`; the model applies the same conversion (`efunResult`, generated) and the
     oracle expects a C int (`toCInt`).  **Explicit side condition** under which the conversion is the identity, i.e.
     the answer is the true time left: the entry's second lies within 2^31 seconds of `current_time`
